@@ -54,7 +54,7 @@ func extractProtoConsts(repo string, f *Facts) {
 	emitPairs("interfaces", "Interface")
 	emitPairs("queryKinds", "ClientQueryKind")
 	for _, n := range []string{"Version", "maxColumnsInBlock", "maxRowsInBLock", "blockInfoOverflows", "blockInfoBucketNum", "endField",
-		"settingFlagImportant", "settingFlagCustom", "settingFlagObsolete"} {
+		"settingFlagImportant", "settingFlagCustom", "settingFlagObsolete", "maxStringSize"} {
 		v, ok := p.constInt(n)
 		if !ok {
 			f.bad("proto: constant %s not found", n)
